@@ -71,11 +71,12 @@ func (c *c11Cfg) kind(id int) string {
 	return "a"
 }
 
-// fail: 0 succeed, 1 raise(T_<sink>_<id>, d<id>, id), 2 return id, 3 Go function failing with E_<sink>_<id>
+// fail: 0 succeed, 1 raise(T_<sink>_<id>, d<id>, id), 2 return id, 3 Go function failing with E_<sink>_<id>,
+// 4 a plain scope error that carries the id (out-of-bounds list write at index id+1: the ErrSink branch of the action)
 func (c *c11Cfg) fail(id, s int) int {
 	m := c11Mix(c.seed, id, s)
 	if m%2 == 0 {
-		return 1 + (m/2)%3
+		return 1 + (m/2)%4
 	}
 	return 0
 }
@@ -98,12 +99,16 @@ func (c *c11Cfg) childFails(cid int) bool { return c11Mix(c.seed, cid, 1)%2 == 0
 
 const c11Mod = 1000003
 
+// record hashes: NOT linear in the fields (a square of a mixed value), so that two records which exchange a
+// field — two invocations reporting each other's error or echoing each other's id — change the digest
 func c11ErrHash(evid, sinkNo, shape, n, sinkIn int) int {
-	return (evid*31 + sinkNo*7 + shape*3 + n*1009 + sinkIn*13 + 5) % c11Mod
+	x := (evid*1000003 + n*7919 + sinkNo*104729 + shape*1299709 + sinkIn*15485863 + 5) % 2147483647
+	return (x*x + x/7 + 13) % c11Mod
 }
 
 func c11EchoHash(sinkNo, a, b, cc, d, acc, mk int) int {
-	return (sinkNo*7 + a*31 + b*37 + cc*41 + d*43 + acc*47 + mk*53 + 11) % c11Mod
+	x := (sinkNo*15485863 + a*1000003 + b*7919 + cc*104729 + d*1299709 + acc*611953 + mk*3571 + 11) % 2147483647
+	return (x*x + x/7 + 17) % c11Mod
 }
 
 func c11Int(v interface{}) int {
@@ -143,6 +148,8 @@ func (d *c11Digest) add(h int) {
 
 var c11Mu sync.Mutex
 var c11Echo *c11Digest // echo records of the running case
+var c11EchoTag float64 // … which carries this tag in its events (records of an abandoned earlier attempt are ignored)
+var c11TagCounter int64
 
 func c11Num(v interface{}) float64 {
 	if f, ok := v.(float64); ok {
@@ -165,6 +172,19 @@ func c11Program(c *c11Cfg) string {
 	}
 	if c.has('o') {
 		sb.WriteString("Box := {\n    \"val\" : 0,\n    \"init\" : func (x0) {\n        this.val := x0\n    },\n    \"get\" : func () {\n        return this.val\n    }\n}\n")
+	}
+	if c.has('h') {
+		sb.WriteString("Mk := {\n    \"mk\" : func (a0) {\n        return {\"v\" : a0, \"w\" : [a0]}\n    }\n}\n")
+	}
+	if c.has('l') {
+		// names the sinks declare with `let`: the declaring scope's variables of these names stay what they are
+		sb.WriteString("lt := -9\n")
+	}
+	if c.has('u') {
+		sb.WriteString("last := 0\n")
+	}
+	if c.has('g') {
+		sb.WriteString("func fire(nm, kd, st) {\n    addEvent(nm, kd, st)\n}\n")
 	}
 	if c.has('d') {
 		// the default value is evaluated in the CALLER's scope: it sees the caller's `event`
@@ -203,6 +223,27 @@ func c11Program(c *c11Cfg) string {
 		if c.has('d') {
 			w("    viaf := viaf + withdef(1) - id")
 		}
+		if c.has('h') {
+			// an access AFTER a call: the result of the call lives in a scope of its own
+			w("    viaf := Mk.mk(viaf).v + Mk.mk(id).w[0] - id")
+		}
+		if c.has('l') {
+			w("    let lt := id\n    for li9 in [id] {\n        let lt2 := li9\n        viaf := viaf + lt2 - lt\n    }")
+		}
+		if c.has('f') {
+			w("    acc2 := 0\n    for e in [1, 2, id + 10, 4] {\n        if e == 2 {\n            continue\n        }\n        if e == 4 {\n            break\n        }\n        acc2 := acc2 + e\n    }")
+			w("    mp0 := {\"a\" : id}\n    for [k0, v0] in mp0 {\n        acc2 := acc2 + v0\n    }")
+			w("    try {\n        raise(\"X{{id}}\")\n    } except \"nomatch\" as e1 {\n        acc2 := -1\n    } except e2 {\n        acc2 := acc2 - id\n    } otherwise {\n        acc2 := -2\n    }")
+			w("    viaf := viaf + acc2 - 11 - id")
+		}
+		if c.has('u') {
+			w("    last := id")
+		}
+		if c.has('k') {
+			// closures declared in the invocation which read its local AFTER a pause
+			w("    func getid() {\n        return id\n    }\n    lam2 := func () {\n        return loc\n    }\n    x.nap()\n    viaf := viaf + getid() - id + lam2() - loc")
+		}
+		w("    if event.name != \"n{{id %% 5}}\" or event.kind != \"t.%s\" {\n        viaf := -1\n    }", "{{event.state.kk}}")
 		if c.glob {
 			w("    mutex cm {\n        total := total + 1\n    }")
 		}
@@ -211,12 +252,16 @@ func c11Program(c *c11Cfg) string {
 			w("    x.nap()")
 		}
 		w("    m := {\"k\" : loc}")
-		w("    x.rec(\"s%d\", event.state.id, loc, viaf, id, acc, m.k)", s)
+		w("    x.rec(\"s%d\", event.state.id, loc, viaf, id, acc, m.k, event.state.rt)", s)
 		if s == 2 && c.has('c') {
 			// (not in a loop: a loop body gets a fresh instance state without the monitor, addEvent would
 			// then start an unrelated root monitor)
 			for j := 1; j <= 4; j++ {
-				w("    if event.state.cas >= %d {\n        cid%d := 500000 + id * 4 + %d\n        addEvent(\"c{{cid%d}}\", \"c.x\", {\"id\" : cid%d, \"f1\" : event.state.c%d, \"g1\" : event.state.g%da, \"g2\" : event.state.g%db})\n    }", j, j, j-1, j, j, j, j, j)
+				add := "addEvent"
+				if c.has('g') {
+					add = "fire" // through a function: the call frame has a fresh instance state
+				}
+				w("    if event.state.cas >= %d {\n        cid%d := 500000 + id * 4 + %d\n        %s(\"c{{cid%d}}\", \"c.x\", {\"id\" : cid%d, \"f1\" : event.state.c%d, \"g1\" : event.state.g%da, \"g2\" : event.state.g%db, \"rt\" : event.state.rt})\n    }", j, j, j-1, add, j, j, j, j, j)
 			}
 		}
 		if c.has('t') {
@@ -226,16 +271,17 @@ func c11Program(c *c11Cfg) string {
 		}
 		w("    if event.state.f%d == 2 {\n        return loc\n    }", s)
 		w("    if event.state.f%d == 3 {\n        x.fail(\"s%d\", viaf)\n    }", s, s)
+		w("    if event.state.f%d == 4 {\n        lst := [1]\n        lst[viaf + 1] := 0\n    }", s)
 		w("}")
 	}
 	if c.has('c') {
 		w("sink sc\n    kindmatch [ \"c.x\" ],\n    priority 1,\n{")
-		w("    cid := event.state.id\n    cl := cid\n    x.rec(\"sc\", event.state.id, cl, cid, cid, cl, cid)")
-		w("    gid1 := 700000 + (cid - 500000) * 2\n    addEvent(\"g{{gid1}}\", \"g.x\", {\"id\" : gid1, \"f1\" : event.state.g1})")
-		w("    gid2 := gid1 + 1\n    addEvent(\"g{{gid2}}\", \"g.x\", {\"id\" : gid2, \"f1\" : event.state.g2})")
+		w("    cid := event.state.id\n    cl := cid\n    x.rec(\"sc\", event.state.id, cl, cid, cid, cl, cid, event.state.rt)")
+		w("    gid1 := 700000 + (cid - 500000) * 2\n    addEvent(\"g{{gid1}}\", \"g.x\", {\"id\" : gid1, \"f1\" : event.state.g1, \"rt\" : event.state.rt})")
+		w("    gid2 := gid1 + 1\n    addEvent(\"g{{gid2}}\", \"g.x\", {\"id\" : gid2, \"f1\" : event.state.g2, \"rt\" : event.state.rt})")
 		w("    if event.state.f1 == 1 {\n        raise(\"T_sc_{{cid}}\", \"d{{cl}}\", cid)\n    }\n}")
 		w("sink sg\n    kindmatch [ \"g.x\" ],\n    priority 1,\n{")
-		w("    gid := event.state.id\n    gl := gid\n    x.rec(\"sg\", event.state.id, gl, gid, gid, gl, gid)")
+		w("    gid := event.state.id\n    gl := gid\n    x.rec(\"sg\", event.state.id, gl, gid, gid, gl, gid, event.state.rt)")
 		w("    if event.state.f1 == 1 {\n        raise(\"T_sg_{{gid}}\", \"d{{gl}}\", gid)\n    }\n}")
 	}
 	if c.has('i') {
@@ -247,7 +293,7 @@ func c11Program(c *c11Cfg) string {
 // c11ExpectedLine mirrors the Lean driver (Ecal.Drv.C11): the result line the payload dictates.
 // It is NOT used by the check (the model side of the comparison is the Lean driver); it serves
 // `harness C11 -tool expect <payload>` when reading a replay.
-func c11ExpectedLine(c *c11Cfg) string {
+func c11ExpectedLine(c *c11Cfg, spec bool) string {
 	en, es, rn, rs, inv := 0, 0, 0, 0, 0
 	for id := 0; id < c.ev; id++ {
 		kind := c.kind(id)
@@ -267,7 +313,7 @@ func c11ExpectedLine(c *c11Cfg) string {
 					cid := c11ChildID(id, j)
 					rn++
 					rs = (rs + c11EchoHash(4, cid, cid, cid, cid, cid, cid)) % c11Mod
-					if c.childFails(cid) {
+					if c.childFails(cid) && !(c.has('g') && !spec) {
 						en++
 						es = (es + c11ErrHash(cid, 4, 1, cid, 4)) % c11Mod
 					}
@@ -275,7 +321,7 @@ func c11ExpectedLine(c *c11Cfg) string {
 						gid := c11GrandID(cid, k)
 						rn++
 						rs = (rs + c11EchoHash(5, gid, gid, gid, gid, gid, gid)) % c11Mod
-						if c.childFails(gid) {
+						if c.childFails(gid) && !(c.has('g') && !spec) {
 							en++
 							es = (es + c11ErrHash(gid, 5, 1, gid, 5)) % c11Mod
 						}
@@ -337,6 +383,10 @@ func c11Classify(rule string, evid int, rerr error) (shape, n, sinkIn int) {
 				shape, n, sinkIn = 1, k, c11SinkNo(parts[1])
 			}
 		}
+	case d.Type == util.ErrSink && strings.Contains(d.Detail, "with index: "):
+		if k, err := strconv.Atoi(strings.TrimSpace(d.Detail[strings.Index(d.Detail, "with index: ")+len("with index: "):])); err == nil && d.Data == nil {
+			shape, n, sinkIn = 4, k-1, c11SinkNo(rule)
+		}
 	default:
 		if i := strings.Index(d.Detail, "E_"); i >= 0 && d.Data == nil {
 			rest := d.Detail[i+2:]
@@ -367,14 +417,15 @@ func c11Run(payload string) string {
 	if s := concSkip(); s != "" {
 		return s
 	}
-	return concDeadline(func() string { return c11RunCase(payload) }, 60*time.Second)
+	return concDeadline(func() string { return c11RunCase(payload) }, 100*time.Second)
 }
 
 func c11RunCase(payload string) string {
 	c := c11ParseCfg(payload)
 	echo := &c11Digest{}
+	tag := float64(atomic.AddInt64(&c11TagCounter, 1))
 	c11Mu.Lock()
-	c11Echo = echo
+	c11Echo, c11EchoTag = echo, tag
 	c11Mu.Unlock()
 
 	erp := interpreter.NewECALRuntimeProvider("t", nil, &memLog{})
@@ -416,7 +467,9 @@ func c11RunCase(payload string) string {
 			state[fmt.Sprintf("g%da", j)] = b2f(c.childFails(c11GrandID(cid, 0)))
 			state[fmt.Sprintf("g%db", j)] = b2f(c.childFails(c11GrandID(cid, 1)))
 		}
-		return engine.NewEvent(fmt.Sprintf("e%d", id), []string{"t", c.kind(id)}, state)
+		state["kk"] = c.kind(id)
+		state["rt"] = tag
+		return engine.NewEvent(fmt.Sprintf("n%d", id%5), []string{"t", c.kind(id)}, state) // several events share a name
 	}
 	// collect: every error recorded under the root monitor of an event, as it is
 	var idMu sync.Mutex
@@ -512,6 +565,21 @@ func c11RunCase(payload string) string {
 		}
 	}
 
+	if c.has('g') && c.has('c') {
+		// children fired through a function run under root monitors of their own (known finding): nobody waits
+		// for them — give them time to finish so that the echo records are complete
+		wantRec := 0
+		fmt.Sscanf(c11ExpectedLine(c, false), "E%d:%d R%d", new(int), new(int), &wantRec)
+		for dl := time.Now().Add(20 * time.Second); time.Now().Before(dl); {
+			echo.mu.Lock()
+			n := echo.n
+			echo.mu.Unlock()
+			if n >= wantRec {
+				break
+			}
+			time.Sleep(5 * time.Millisecond)
+		}
+	}
 	tot, shadow := "-", "-"
 	if c.glob {
 		v, _, _ := vs.GetValue("total")
@@ -529,6 +597,14 @@ func c11RunCase(payload string) string {
 		}
 		if gv, _, _ := vs.GetValue("v"); gid != -7 || c11Num(gv) != -7 {
 			shadow = "0" // an invocation / a call frame stored into the declaring scope
+		}
+	}
+	if c.has('l') {
+		lt, _, _ := vs.GetValue("lt")
+		if c11Num(lt) != -9 {
+			shadow = "0" // `let` / a loop variable wrote the declaring scope's variable of that name
+		} else if shadow == "-" {
+			shadow = "1"
 		}
 	}
 	runStats["run.invocations"] += echo.n
@@ -552,14 +628,14 @@ func init() {
 				return nil, fmt.Errorf("E_%v_%v;", args[0], args[1])
 			})
 			registerX("rec", func(args []interface{}) (interface{}, error) {
-				if len(args) != 7 {
-					return nil, fmt.Errorf("rec: 7 arguments")
+				if len(args) != 8 {
+					return nil, fmt.Errorf("rec: 8 arguments")
 				}
 				h := c11EchoHash(c11SinkNo(fmt.Sprint(args[0])), c11Int(args[1]), c11Int(args[2]), c11Int(args[3]), c11Int(args[4]), c11Int(args[5]), c11Int(args[6]))
 				c11Mu.Lock()
-				d := c11Echo
+				d, tg := c11Echo, c11EchoTag
 				c11Mu.Unlock()
-				if d != nil {
+				if d != nil && c11Num(args[7]) == tg {
 					d.add(h)
 				}
 				return nil, nil
@@ -575,11 +651,12 @@ func init() {
 				return 0
 			}
 			if len(args) >= 2 && args[0] == "expect" {
-				fmt.Println(c11ExpectedLine(c11ParseCfg(args[1])))
+				fmt.Println(c11ExpectedLine(c11ParseCfg(args[1]), false))
+				fmt.Println("spec:", c11ExpectedLine(c11ParseCfg(args[1]), true))
 				return 0
 			}
 			if len(args) >= 1 && args[0] == "program" {
-				feat := "tnodic"
+				feat := "tnodickhlufg"
 				if len(args) > 1 {
 					feat = args[1]
 				}
@@ -590,9 +667,9 @@ func init() {
 			return 2
 		},
 		Gen: func(g *Gen) {
-			cases, ev := 48, 15000
+			cases, ev := 48, 6000
 			if g.Thorough() {
-				cases, ev = 240, 25000
+				cases, ev = 240, 15000
 			}
 			if v := os.Getenv("VERIF_C11_CASES"); v != "" {
 				cases, _ = strconv.Atoi(v)
@@ -619,10 +696,14 @@ func init() {
 					nap, evc = 1, ev/3
 				}
 				feat := ""
-				for _, f := range "tnodixc" {
+				for _, f := range "tnodixckhlufg" {
 					if g.R.Intn(3) == 0 || (f == 'c' && g.R.Intn(3) == 0) {
 						feat += string(f)
 					}
+				}
+				if strings.Contains(feat, "g") && (!strings.Contains(feat, "c") || os.Getenv("VERIF_C11_NO_G") != "") {
+					// (without its known-findings line the construct of the known finding is not generated)
+					feat = strings.Replace(feat, "g", "", 1)
 				}
 				if strings.Contains(feat, "c") {
 					evc = evc / 3 // every second event then causes 7..13 invocations under one root monitor
@@ -631,8 +712,11 @@ func init() {
 					}
 
 				}
-				if strings.ContainsAny(feat, "tnod") {
-					evc = evc * 2 / 3
+				if strings.ContainsAny(feat, "tnodkhlf") {
+					evc = evc / 2
+				}
+				if strings.Contains(feat, "k") {
+					evc = evc / 2 // a pause in every invocation
 				}
 				if feat == "" {
 					feat = "-"
